@@ -1,4 +1,5 @@
 import FindVerif.Driver.Props
+import FindVerif.Driver.C02
 
 open FV
 
@@ -75,8 +76,9 @@ def handleLine (prop : String) (st : DState) (line : String) : DState × String 
       | .obs m =>
         let a := projectObs prop reqCore obs
         let b := projectObs prop reqCore (normCerr (normPanic m))
-        if a = b then none else some s!"DIFF impl=[{a}] model=[{b}]"
-    let (st', pc) := propCheck prop st reqParts obs
+        if a = b then (if prop = "C02" then (structDiffC02 reqCore obs).map ("DIFF " ++ ·) else none)
+        else some s!"DIFF impl=[{a}] model=[{b}]"
+    let (st', pc) := if prop = "C02" then (st, checkC02 reqParts obs) else propCheck prop st reqParts obs
     (st', match pc, diff with
     | some why, some d => s!"PFAIL {prop} {why} ;; {d}"
     | some why, none => s!"PFAIL {prop} {why}"
